@@ -16,6 +16,7 @@ ap.add_argument("--seed", default="1")
 ap.add_argument("--only", default="")
 ap.add_argument("--seeded", action="store_true")
 ap.add_argument("--skip-suite", action="store_true")
+ap.add_argument("--controls", action="store_true", help="run selftest/controls/*.diff: behaviour-preserving changes on which every check must stay silent")
 ap.add_argument("--only-re", default="", help="regex the name must match")
 ap.add_argument("--skip", default="", help="comma separated substrings to leave out")
 args = ap.parse_args()
@@ -33,6 +34,13 @@ if args.seeded:
         name = "seeded:" + os.path.basename(d)
         if args.only in name and re.search(args.only_re, name) and not any(x and x in name for x in args.skip.split(",")):
             jobs.put((name, os.path.join(d, "patch.diff"), mj.get("checks") or [mj["property"]]))
+elif args.controls:
+    for f in sorted(glob.glob(f"{ROOT}/selftest/controls/*.diff")):
+        name = "control:" + os.path.basename(f)[:-5]
+        if args.only in name and re.search(args.only_re, name):
+            meta = f[:-5] + ".json"
+            checks = json.load(open(meta))["checks"] if os.path.exists(meta) else [os.path.basename(f).split("-")[0]]
+            jobs.put((name, f, checks))
 else:
     for f in sorted(glob.glob(f"{ROOT}/selftest/mutants/*.diff")):
         name = os.path.basename(f)[:-5]
